@@ -163,4 +163,25 @@ def step (s : Store) : Step → Store × Out
 /-- the store after a whole history -/
 def runSteps (s : Store) (hs : List Step) : Store := hs.foldl (fun s st => (step s st).1) s
 
+/-! ### the payload block of the table (round 4: messages generated by ROW / COLUMN structure)
+
+The harness builds messages row by row (and column by column) in the 9×11 payload block and aims the errors at cells
+of the 13×15 table; these two functions are the model's side of that layout (driver ops `bptc.rows`, `bptc.table`). -/
+
+/-- rows 0..8 × columns 0..10 of a flat 13×15 table -/
+def payloadBlock (t : Bits) : List Bits :=
+  (List.range 9).map (fun r => (List.range 11).map (fun c => getBit t (15 * r + c)))
+
+/-- the payload rows `fill_encoding_table` lays a 96-bit message out in (row 0 starts with the three reserved cells) -/
+def payloadRows (m : Bits) : Except Err (List Bits) :=
+  if m.length = 96 then .ok (payloadBlock (fillCore deinterleaveInfoBitsOnlyMap m)) else .error .assertion
+
+/-- all 13 rows of the table `repair_if_necessary` builds from a received word, before any correction -/
+def receivedTable (w : Bits) : Except Err (List Bits) :=
+  if w.length = 196 then
+    let t := fillCore fullDeinterleavingMap (deinterleaveAllCore w)
+    .ok ((List.range 13).map (fun r => (List.range 15).map (fun c => getBit t (15 * r + c))))
+  else .error .assertion
+
+
 end Dmr.Bptc
